@@ -20,6 +20,8 @@ pub fn run(thorough: bool) -> Vec<Part> {
             part.violations.push(v.clone());
         }
         parts.push(part);
+    } else {
+        parts.push(crate::props::srv::c11_server(thorough));
     }
     parts
 }
